@@ -276,11 +276,13 @@ def eval_dist(rp):
 
 
 # ----------------------------------------------------------------------------- B: mixture models
-def case_model(rng, tier, i, name=None):
+def case_model(rng, tier, i, name=None, large=False):
     name = name or DIRECTIONAL[int(rng.integers(0, len(DIRECTIONAL)))]
     K = int(rng.integers(2, 5))
     D = int(rng.integers(2, 6))
     N = K * (D + 2) + int(rng.integers(0, 9))
+    if large:
+        K, D, N = 2, 3, int(rng.integers(18000, 40000))        # a long recording (block-wise normalisation, remainders)
     if name in mm.INTEGRATION:
         lead = (int(rng.integers(1, 4)),)
     else:
@@ -288,12 +290,17 @@ def case_model(rng, tier, i, name=None):
     if name == 'cbmm':
         D, K = min(D, 3), min(K, 3)
         N = K * (D + 2) + int(rng.integers(0, 4))
+    if large:
+        lead = (1,) if name in mm.INTEGRATION else ()
     data = mm.make_data(rng, name, K, D, N, lead, separation=float(rng.choice([0.5, 2.0, 8.0])))
     data = {k: v for k, v in data.items() if k != 'labels'}
     style = ['positive', 'dirichlet'][int(rng.integers(0, 2))]
     init = mm.make_init(rng, K, N, lead, style)
     opts = mm.sample_options(rng, name, K, N, lead, with_aligner=(rng.random() < 0.15))
     iters = int(rng.integers(1, 6))
+    if large:
+        opts = {'weight_constant_axis': (-1,)}
+        iters = int(rng.integers(1, 4))
     cs = ce = None
     if name in mm.INTEGRATION:
         which = int(rng.integers(0, 3)) if name == 'vmfcacgmm' else 0
@@ -452,6 +459,8 @@ def eval_model(rp):
             return ('cacgmm: log_likelihood %.12g (y) vs %.12g (c*y, same model) vs %.12g (c*y, refitted)' % (ll1, ll3, ll2),
                     'model:loglik:cacgmm', None, False)
     nt = well and K >= 2 and bool(((p11 > 0.01) & (p11 < 0.99)).any())
+    if N > 2000:
+        return None, None, None, nt          # no Coq literal for a long recording: the predicates above decide
     return None, None, coq_model(rp, name, data, d2, cs, ce, tr1, opts, m1, m2, tap1, tap2, lead, K, N), nt
 
 
@@ -538,6 +547,8 @@ def cases(rng, tier):
         out.append(case_dist(rng, tier, i))
     for i in range(66 if q else 660):
         out.append(case_model(rng, tier, i, name=DIRECTIONAL[i % len(DIRECTIONAL)]))
+    for i in range(3 if q else 12):
+        out.append(case_model(rng, tier, i, name=['cacgmm', 'cwmm', 'vmfmm', 'cacgmm'][i % 4], large=True))
     return out
 
 
